@@ -138,6 +138,7 @@ def gen_case(rng, quick):
         stages.append(st)
     case["stages"] = stages
     # malformed stream: a few rejection probes
+    gen_presentation(rng, case)
     if rng.random() < 0.12:
         bad = rng.choice(["zero", "toolarge", "negfrac", "bigfrac", "full_thr", "warm_unfitted", "nts_str"])
         case["bad"] = bad
@@ -147,6 +148,110 @@ def gen_case(rng, quick):
         if bad == "warm_unfitted":
             case.pop("prefit", None)      # the probe needs a never-fitted object
     return case
+
+
+XPRES = ["float32", "int8", "uint8", "int16", "int32", "int64", "list", "fortran"]
+FLOAT_SCORED = lambda case: not (case["kind"] in ("fps", "voronoi") or (case["kind"] == "pcovfps" and case["axis"] == 0))  # noqa
+
+
+def gen_presentation(rng, case):
+    """The SAME input values handed to fit in another presentation: dtype / container / memory order of X,
+    dtype of y (incl. targets that single precision cannot hold), or X rescaled by an exact power of two
+    (distances scale by 4^e: relative thresholds unchanged, absolute ones rescaled).  The presented run is the
+    one that goes through the models; a plain C-ordered float64 run of the same chain is its reference."""
+    r = rng.random()
+    kind, y = case["kind"], case["y"]
+    if r < 0.45:
+        xp = rng.choice(XPRES)
+        flat = [v for row in case["X"] for v in row]
+        if xp == "int8" and not all(-128 <= v <= 127 for v in flat):
+            xp = "int16"
+        if xp == "uint8" and not all(0 <= v <= 255 for v in flat):
+            xp = "int32" if min(flat) < 0 else "int16"
+        pres = dict(x=xp, y="float64")
+        if y is not None:
+            if kind in ("fps", "voronoi", "cur") and case["axis"] == 0 and rng.random() < 0.5:
+                # targets these selectors only store: values float32 cannot represent (spacing 128 up there)
+                for row in y:
+                    for j in range(len(row)):
+                        v = 1700000000 + rng.randint(1, 4000)
+                        row[j] = v + (1 if v % 128 == 0 else 0)
+                pres["y"] = rng.choice(["float64", "int64", "list"])
+                pres["ybig"] = True
+            else:
+                pres["y"] = rng.choice(["float64", "float32", "int64", "list"])
+        case["pres"] = pres
+    elif r < 0.7 and kind in ("fps", "voronoi"):
+        e = rng.choice([k for k in range(-20, 13) if k != 0])
+        case["pres"] = dict(x="float64", y="float64", scale=e)
+
+
+def present(case, pres):
+    """X, Y as handed to fit, and the factor that undoes the rescaling."""
+    X = np.array(case["X"], dtype=float)
+    Y = None if case["y"] is None else np.array(case["y"], dtype=float)
+    unscale = 1.0
+    if pres:
+        e = pres.get("scale", 0)
+        if e:
+            X = X * 2.0 ** e
+            unscale = 2.0 ** (-e)
+        xp = pres["x"]
+        if xp == "fortran":
+            X = np.asfortranarray(X)
+        elif xp == "list":
+            X = [[int(v) for v in row] for row in case["X"]]
+        elif xp != "float64":
+            X = np.array(case["X"], dtype=getattr(np, xp))
+        if Y is not None:
+            yp = pres["y"]
+            if yp == "list":
+                Y = [[int(v) for v in row] for row in case["y"]]
+            elif yp != "float64":
+                Y = np.array(case["y"], dtype=getattr(np, yp))
+    if Y is not None and len(case["y"][0]) == 1 and case.get("y1d"):
+        Y = [row[0] for row in Y] if isinstance(Y, list) else Y[:, 0]
+    return X, Y, unscale
+
+
+def twin_exact(case):
+    """is the presented run bit-for-bit comparable with the plain float64 run?  Integer dtypes and lists are
+    promoted to the very same float64 array; float32 / Fortran order / float32 targets change the arithmetic,
+    which is exact only for the selectors whose scores are integer-valued on the lattice."""
+    pres = case.get("pres")
+    if not pres:
+        return False
+    if case["kind"] in ("cur", "pcovcur"):
+        # not reproducible even on identical input (eigsh starts from an unseeded random vector; svds on an
+        # exhausted residual returns rounding noise that differs from call to call): no twin, only the models
+        return False
+    if FLOAT_SCORED(case) and (pres["x"] in ("float32", "fortran") or pres["y"] == "float32"):
+        return False
+    return True
+
+
+def compare_twin(case, ref, r):
+    """None, or what differs between the presented run [r] and the plain float64 run [ref]."""
+    e = (case.get("pres") or {}).get("scale", 0)
+    f = 4.0 ** e
+    if len(ref["stages"]) != len(r["stages"]):
+        return "%d stages ran instead of %d" % (len(r["stages"]), len(ref["stages"]))
+    for si, (a, b) in enumerate(zip(ref["stages"], r["stages"])):
+        if a.get("error") != b.get("error"):
+            return "stage %d: outcome %s instead of %s" % (si, b.get("error", "fitted"), a.get("error", "fitted"))
+        if "obs" in a:
+            if a["stopped"] != b["stopped"]:
+                return "stage %d: threshold stop %s instead of %s" % (si, b["stopped"], a["stopped"])
+            for k in ("sel", "nsel", "xsel", "ysel", "support", "sorted", "ordered", "transform",
+                      "xsel_dtype", "ysel_dtype"):
+                if a["obs"][k] != b["obs"][k]:
+                    return "stage %d: %s is %r instead of %r" % (si, k, b["obs"][k], a["obs"][k])
+        if len(a["stream_raw"]) != len(b["stream_raw"]):
+            return "stage %d: %d score calls instead of %d" % (si, len(b["stream_raw"]), len(a["stream_raw"]))
+        for t, (va, vb) in enumerate(zip(a["stream_raw"], b["stream_raw"])):
+            if [x * f for x in va] != list(vb):
+                return "stage %d: scores at step %d differ: %r instead of %r" % (si, t, list(vb)[:6], [x * f for x in va][:6])
+    return None
 
 
 def cands(case):
@@ -167,11 +272,15 @@ class Recorder:
         sel.score = score
 
 
-def observe(sel, X, axis):
+def observe(sel, X, axis, data_scale=1.0):
+    """`data_scale` undoes an exact power-of-two rescaling of X (scale presentation)."""
     o = {}
     o["sel"] = [int(i) for i in sel.selected_idx_]
     o["nsel"] = int(sel.n_selected_)
-    xs = np.asarray(sel.X_selected_, float)
+    # the dtypes of the result buffers are part of the state: fit allocates them as float64 whatever X and y are
+    o["xsel_dtype"] = str(np.asarray(sel.X_selected_).dtype)
+    o["ysel_dtype"] = str(np.asarray(sel.y_selected_).dtype) if hasattr(sel, "y_selected_") else None
+    xs = np.asarray(sel.X_selected_, float) * data_scale
     if axis == 1:
         xs = xs.T
     o["xsel"] = C.as_int_matrix(xs, "X_selected_") if xs.size else []
@@ -184,19 +293,19 @@ def observe(sel, X, axis):
     o["sorted"] = [int(i) for i in sel.get_support(indices=True)]
     o["ordered"] = [int(i) for i in sel.get_support(indices=True, ordered=True)]
     if axis == 1:
-        t = np.asarray(sel.transform(X), float)
+        t = np.asarray(sel.transform(X), float) * data_scale
         o["transform"] = C.as_int_matrix(t.T, "transform") if t.size else []
     else:
         o["transform"] = None
     return o
 
 
-def run_impl(case, rng_thr=None):
-    """Run the chain; returns dict(stages=[...], stream=[[codes]], int_scores=bool)."""
-    X = np.array(case["X"], dtype=float)
-    Y = None if case["y"] is None else np.array(case["y"], dtype=float)
-    if Y is not None and Y.shape[1] == 1 and case.get("y1d"):
-        Y = Y[:, 0]
+def run_impl(case, reference=False):
+    """Run the chain; returns dict(stages=[...], stream=[[codes]], int_scores=bool).
+    reference=True ignores case['pres'] (plain C-ordered float64 input)."""
+    pres = None if reference else case.get("pres")
+    X, Y, unscale = present(case, pres)
+    sc_e = (pres or {}).get("scale", 0)
     kw = dict(case["extra"])
     if case["init"] is not None:
         kw["initialize"] = np.array(case["init"]) if case.get("init_nd") else case["init"]
@@ -226,7 +335,8 @@ def run_impl(case, rng_thr=None):
     rec = Recorder(sel)
     out = []
     ncand = len(cands(case))
-    int_scores = case["kind"] in ("fps", "voronoi") or (case["kind"] == "pcovfps" and case["axis"] == 0)
+    base_int = case["kind"] in ("fps", "voronoi") or (case["kind"] == "pcovfps" and case["axis"] == 0)
+    int_scores = base_int and not sc_e       # rescaled distances are dyadic fractions: coded by bit pattern
     scale = 4 if case["kind"] == "pcovfps" else 1
 
     def code(v):
@@ -258,7 +368,11 @@ def run_impl(case, rng_thr=None):
         elif "thr_kind" in st:
             thr = st.get("thr_real")
             if thr is None:
-                thr = realise_threshold(case, st, sel, fitted, int_scores, scale)
+                thr = realise_threshold(case, st, sel, fitted, base_int, scale)
+                if base_int and sc_e:
+                    # same threshold on the rescaled data: absolute ones scale with the distances
+                    v = thr[0] / thr[1] * (4.0 ** sc_e if st["thr_kind"] == "absolute" else 1.0)
+                    thr = (bits(v), 1, v)
                 st["thr_real"] = thr
         thr_float = None
         if thr is not None:
@@ -292,7 +406,7 @@ def run_impl(case, rng_thr=None):
         if "error" in recd:
             del rec.calls[ncalls:]
         else:
-            recd["obs"] = observe(sel, X, case["axis"])
+            recd["obs"] = observe(sel, X, case["axis"], unscale)
             fs = getattr(sel, "first_score_", None)
             recd["first_score"] = None if fs is None else float(fs)
             if case.get("X2") is not None:
@@ -350,6 +464,10 @@ def realise_threshold(case, st, sel, fitted, int_scores, scale):
     # float scores (leverage scores in [0, k]): the binary64 tests themselves are modelled
     # (Model/SelBuf.v tst_fabs / tst_frel); relative thresholds a little above 1 stop at once
     v = float(pos) * (0.8 if st["thr_kind"] == "absolute" else 1.1)
+    if (case.get("pres") or {}).get("x") == "float32":
+        # scores are single precision there and numpy compares them with a Python float in single
+        # precision: a threshold that IS a float32 makes that the same test as in double precision
+        v = float(np.float32(v))
     return (bits(v), 1, v)
 
 
@@ -526,6 +644,11 @@ def oracle_stage(case, res, si, s, prev_nsel):
         if f2:
             # the remaining clauses compare views of a state that F2 already made inconsistent
             return ("stage %d: warm start continued from the inconsistent buffers of a threshold stop" % si, f2)
+        if o.get("xsel_dtype", "float64") != "float64" or o.get("ysel_dtype") not in (None, "float64"):
+            # what the code does: np.zeros(shape, float) / np.pad / np.take, i.e. double precision whatever
+            # the dtypes of X and y are; anything narrower cannot hold "the input sliced at the indices"
+            return ("stage %d: result buffers are not float64 (X_selected_ %s, y_selected_ %s) for input presented as %r"
+                    % (si, o.get("xsel_dtype"), o.get("ysel_dtype"), case.get("pres")), None)
         if any(i < 0 or i >= n for i in sel):
             return ("stage %d: index out of range" % si, None)
         if not s["stopped"] and len(sel) != want:
@@ -624,16 +747,24 @@ def run(ctx):
                  thr_abs=0, thr_rel=0, errors=0, inexact_skipped=0,
                  y1d=0, prefit=0, full_without_threshold=0, transform_new_data=0, float_relative_thr=0,
                  warm_after_clean_stop=0, warm_after_cut_stop=dict(duplicate=0, ValueError=0, IndexError=0, other=0),
-                 rejected_mid_chain=0)
+                 rejected_mid_chain=0, presentations={}, twin_compared=0)
     directed = directed_cases()
     directed_seen = []
     for ci in range(len(directed) + ncases):
         c = directed[ci] if ci < len(directed) else gen_case(ctx.rng, ctx.quick)
         try:
             r = run_impl(c)
+            if twin_exact(c):
+                r["twin"] = compare_twin(c, run_impl(c, reference=True), r)
+                stats["twin_compared"] += 1
         except C.InexactOutput:
             stats["inexact_skipped"] += 1
             continue
+        pr = c.get("pres")
+        if pr:
+            pk = "scale" if pr.get("scale") else "X:%s y:%s%s" % (pr["x"], pr["y"] if c["y"] is not None else "-",
+                                                                  "(big)" if pr.get("ybig") else "")
+            stats["presentations"][pk] = stats["presentations"].get(pk, 0) + 1
         if ci < len(directed):
             last = r["stages"][-1]
             directed_seen.append(("obs", last["obs"]["sel"]) if "obs" in last else ("error", last.get("error")))
@@ -716,6 +847,12 @@ def run(ctx):
                                dict(case=cases[i], observed=ress[i]), key=key, found_input=True)
             if key != KEY_F2:
                 reported.add(i)
+    for i in range(len(cases)):
+        if ress[i].get("twin"):
+            C.report_violation(ctx, "C01: the same input values presented as %r give another fit than as C-ordered "
+                                    "float64 (%s)" % (cases[i].get("pres"), ress[i]["twin"]),
+                               dict(case=cases[i], observed=ress[i], twin=ress[i]["twin"]), found_input=True)
+            reported.add(i)
     # a case filed under F2 is still compared with the models: F2 does not excuse any other deviation
     for i in sorted(set(mismatched) - reported):
         C.report_violation(ctx, "correspondence Select model vs implementation broken (oracle accepts the output)",
@@ -761,5 +898,8 @@ def replay(ctx, obj):
     c = obj["case"]
     r = run_impl(c)
     v = oracle(c, r)
+    if not v and twin_exact(c):
+        t = compare_twin(c, run_impl(c, reference=True), r)
+        v = ("presentation %r vs float64: %s" % (c.get("pres"), t), None) if t else None
     print("replay:", v[0] if v else "property holds on this input now")
     return 1 if v else 0
